@@ -25,7 +25,7 @@ func init() {
 		Real:           []string{"AuthorizeEquipmentHandler (JSON decode), managedAuthorizeEquipment, saveEquipment, loadEquipment (ban replay)", "EquipmentHandler, RecentReportsHandler, sync handler, stats handler", "CheckInvariants", "restart path"},
 		Stub:           []string{"socket listeners", "peer servers (none configured)"},
 		Assumptions:    []string{"fresh ids always carry fresh keys (the GCA assigning one key to two live ids is outside the listed space)"},
-		RequiredProbes: []string{"hist.conflict", "hist.auth-for-banned", "hist.restart", "c06.float-pattern", "c06.ban-with-data", "c06.conflict-key-reuse"},
+		RequiredProbes: []string{"hist.conflict", "hist.auth-for-banned", "hist.restart", "c06.float-pattern", "c06.ban-with-data", "c06.conflict-key-reuse", "hist.tampered-copy"},
 		RequiredSites:  []string{"auth.after-write", "auth.preforward"},
 	})
 }
